@@ -198,7 +198,7 @@ def gen_model(r):
         info[i] = {"m": msig, "items": isig, "items_out": items_out}
     jc_sigs = {"Count": r.choice([[("min_pt", None)], [("min_pt", None), ("eta", "2.5")], [("a", None), ("b", None)]]),
                "First": r.choice([[("n", None)], [("n", "1")], [("n", None), ("strict", "True")]])}
-    classes.append({"name": "JC", "base": "Iterable[T]",
+    classes.insert(0, {"name": "JC", "base": "Iterable[T]",
                     "methods": [{"name": "Count", "params": jc_sigs["Count"], "ret": "int"},
                                 {"name": "First", "params": jc_sigs["First"], "ret": "T"}]})
     info["jc"] = jc_sigs
